@@ -37,14 +37,14 @@ Inductive junk (st : vstate) (v : vote) : Prop :=
     recover_signer (c_lb c) v = Some (val, bk, mk) -> lb_total (c_lb c) = 0 -> junk st v
 | junk_proof : forall val bk mk,           (* proof not valid under this key for (seed, step, index):
                                               replayed from another round / index / step, another validator's, truncated *)
-    recover_signer (c_lb c) v = Some (val, bk, mk) ->
+    recover_signer (c_lb c) v = Some (val, bk, mk) -> o_vrf_crash O (vt_proof v) = false ->
     o_vrf O mk (c_seed c) step (c_index c) (vt_proof v) = None -> junk st v
 | junk_no_seat : forall val bk mk h j,     (* the recomputed seat count is zero *)
-    recover_signer (c_lb c) v = Some (val, bk, mk) ->
+    recover_signer (c_lb c) v = Some (val, bk, mk) -> o_vrf_crash O (vt_proof v) = false ->
     o_vrf O mk (c_seed c) step (c_index c) (vt_proof v) = Some h ->
     o_seats O h (v_stake val) (c_thr c) (lb_total (c_lb c)) = Some j -> (j <= 0)%Z -> junk st v
 | junk_weight : forall val bk mk h j,      (* claimed weight differs from the recomputed seat count *)
-    recover_signer (c_lb c) v = Some (val, bk, mk) ->
+    recover_signer (c_lb c) v = Some (val, bk, mk) -> o_vrf_crash O (vt_proof v) = false ->
     o_vrf O mk (c_seed c) step (c_index c) (vt_proof v) = Some h ->
     o_seats O h (v_stake val) (c_thr c) (lb_total (c_lb c)) = Some j -> u32_of_Z j <> vt_votes v -> junk st v.
 
@@ -54,8 +54,8 @@ Proof. intros; split; reflexivity. Qed.
 Theorem junk_contributes_nothing : forall st v, junk st v -> contributes_nothing st v.
 Proof.
   intros st v HJ. unfold contributes_nothing, vote_step.
-  destruct HJ as [val bk mk HR HM | val bk mk HR HC HM | val bk mk HR HT | val bk mk HR HP
-                  | val bk mk h j HR HP HS HJ | val bk mk h j HR HP HS HJ]; rewrite HR.
+  destruct HJ as [val bk mk HR HM | val bk mk HR HC HM | val bk mk HR HT | val bk mk HR HCr HP
+                  | val bk mk h j HR HCr HP HS HJ | val bk mk h j HR HCr HP HS HJ]; rewrite HR.
   - destruct (check_member V && negb (is_member val)); [eexists; split; [reflexivity|apply same_core_refl]|].
     rewrite HM. eexists; split; [reflexivity|apply same_core_refl].
   - rewrite HC, HM. cbn. eexists; split; [reflexivity|apply same_core_refl].
@@ -64,16 +64,16 @@ Proof.
     unfold verify_sortition. rewrite HT. cbn. eexists; split; [reflexivity|]. split; reflexivity.
   - destruct (check_member V && negb (is_member val)); [eexists; split; [reflexivity|apply same_core_refl]|].
     destruct (mem mk (st_sta st)); [eexists; split; [reflexivity|apply same_core_refl]|].
-    unfold verify_sortition. destruct (lb_total (c_lb c) =? 0); [|rewrite HP];
+    unfold verify_sortition. destruct (lb_total (c_lb c) =? 0); [|rewrite HCr, HP];
       (eexists; split; [reflexivity|]; split; reflexivity).
   - destruct (check_member V && negb (is_member val)); [eexists; split; [reflexivity|apply same_core_refl]|].
     destruct (mem mk (st_sta st)); [eexists; split; [reflexivity|apply same_core_refl]|].
-    unfold verify_sortition. destruct (lb_total (c_lb c) =? 0); [|rewrite HP, HS];
+    unfold verify_sortition. destruct (lb_total (c_lb c) =? 0); [|rewrite HCr, HP, HS];
       [eexists; split; [reflexivity|]; split; reflexivity|].
     replace (j <=? 0)%Z with true by lia. eexists; split; [reflexivity|]; split; reflexivity.
   - destruct (check_member V && negb (is_member val)); [eexists; split; [reflexivity|apply same_core_refl]|].
     destruct (mem mk (st_sta st)); [eexists; split; [reflexivity|apply same_core_refl]|].
-    unfold verify_sortition. destruct (lb_total (c_lb c) =? 0); [|rewrite HP, HS];
+    unfold verify_sortition. destruct (lb_total (c_lb c) =? 0); [|rewrite HCr, HP, HS];
       [eexists; split; [reflexivity|]; split; reflexivity|].
     destruct (j <=? 0)%Z; [eexists; split; [reflexivity|]; split; reflexivity|].
     replace (u32_of_Z j =? vt_votes v) with false by lia. cbn.
@@ -125,7 +125,78 @@ Proof.
   apply loop_core. destruct HC; split; congruence.
 Qed.
 
+(* ---- malformed proofs: crash or reject, never counted ------------------------------ *)
+
+(* a vote whose proof makes ProofToHash panic, reached by the loop (the voter resolves, is
+   not skipped as a non-member or duplicate, the committee statistic is not empty),
+   stops the verifier with a panic *)
+Lemma crashing_vote_step : forall st v val bk mk,
+  recover_signer (c_lb c) v = Some (val, bk, mk) ->
+  check_member V && negb (is_member val) = false -> mem mk (st_sta st) = false ->
+  lb_total (c_lb c) <> 0 -> o_vrf_crash O (vt_proof v) = true ->
+  vote_step O V c step st v = inr EPanic.
+Proof.
+  intros st v val bk mk HR HM HS HT HC. unfold vote_step. rewrite HR, HM, HS.
+  unfold verify_sortition. replace (lb_total (c_lb c) =? 0) with false by lia. rewrite HC. reflexivity.
+Qed.
+
+Lemma loop_stop : forall l1 v l2 st0 st e,
+  vote_loop O V c step st0 l1 = inl st -> vote_step O V c step st v = inr e ->
+  vote_loop O V c step st0 (l1 ++ v :: l2) = inr e.
+Proof. intros. rewrite loop_app, H. cbn [vote_loop]. rewrite H0. reflexivity. Qed.
+
+(* ... so the vote list is not accepted: the outcome is the crash *)
+Theorem crashing_vote_not_accepted : forall l1 v l2 st sig isPos,
+  cp_bls (c_cp c) = true ->
+  vote_loop O V c step vs0 l1 = inl st -> vote_step O V c step st v = inr EPanic ->
+  verify_votes O V c (l1 ++ v :: l2) (Some sig) step isPos = EPanic.
+Proof.
+  intros l1 v l2 st sig isPos HB HL HS. unfold verify_votes. rewrite HB. cbn [negb].
+  rewrite (loop_stop l1 v l2 vs0 st EPanic HL HS). reflexivity.
+Qed.
+
 End Junk.
+
+Section Crash.
+Variable O : oracles.
+
+(* a header whose proposer credential makes ProofToHash panic is never accepted (whatever
+   the variant): the outcome is a reject of an earlier check or the crash *)
+Theorem malformed_credential_not_accepted : forall V cp vers seedH lb certH certlb h cd,
+  h_cons h = Some cd -> o_vrf_crash O (cd_proof cd) = true ->
+  verify_main O V cp vers seedH lb certH certlb h <> Accept.
+Proof.
+  intros V cp vers seedH lb certH certlb h cd HC HP H. unfold verify_main in H. rewrite HC in H.
+  destruct (h_cons seedH) as [seedCon|]; [|discriminate].
+  destruct (need_seat V && (cd_sub cd =? 0)); [discriminate|].
+  destruct (cd_signer cd) as [pk|]; [|discriminate].
+  destruct (find_by_main (lb_vals lb) pk) as [val|]; [|discriminate].
+  destruct (check_member V && negb (is_member val)); [discriminate|].
+  unfold verify_priority in H. destruct (lb_total lb =? 0); [discriminate|]. rewrite HP in H. discriminate.
+Qed.
+
+(* ... and when everything before the credential check passes, the outcome is the crash *)
+Theorem malformed_credential_crashes : forall V cp vers seedH lb certH certlb h cd seedCon pk val,
+  h_cons seedH = Some seedCon -> h_cons h = Some cd -> need_seat V && (cd_sub cd =? 0) = false ->
+  cd_signer cd = Some pk -> find_by_main (lb_vals lb) pk = Some val ->
+  check_member V && negb (is_member val) = false -> lb_total lb <> 0 ->
+  o_vrf_crash O (cd_proof cd) = true ->
+  verify_main O V cp vers seedH lb certH certlb h = EPanic.
+Proof.
+  intros until val. intros H1 H2 H3 H4 H5 H6 H7 H8. unfold verify_main. rewrite H1, H2, H3, H4, H5, H6.
+  unfold verify_priority. replace (lb_total lb =? 0) with false by lia. rewrite H8. reflexivity.
+Qed.
+
+(* no counted vote has a crashing proof *)
+Theorem counted_votes_do_not_crash : forall V c step votes x,
+  In x (counted_from O V c step [] votes) -> o_vrf_crash O (vt_proof (fst x)) = false.
+Proof.
+  intros V c step votes x Hx. pose proof (counted_facts O V c step votes []) as HF.
+  rewrite Forall_forall in HF. destruct (HF x Hx) as [(bk & mk & _ & _ & Hs & _) _].
+  apply sortition_ok_inv in Hs as (h & j & _ & _ & _ & _ & Hc). exact Hc.
+Qed.
+
+End Crash.
 
 (* ---- whole header ------------------------------------------------------------ *)
 
@@ -215,6 +286,7 @@ Lemma priority_inv : forall pk seed index proof prio sub thr stake total,
 Proof.
   intros until total. unfold verify_priority.
   destruct (total =? 0); [discriminate|].
+  destruct (o_vrf_crash O proof) eqn:ECr; [discriminate|].
   destruct (o_vrf O pk seed step_proposal index proof) as [h|] eqn:EH; [|discriminate].
   destruct (o_seats O h stake thr total) as [j|] eqn:ES; [|discriminate].
   destruct (u32_of_Z j =? sub) eqn:EU; cbn; [|discriminate].
